@@ -305,6 +305,43 @@ def invariance_cell(cell, W, seed, through_parallel=False):
     return zs, moved
 
 
+def pipeline_cell(cell, W, seed):
+    """M3c: as M3b, but cluster labels and mode statistics come from the library's own pipeline pieces
+    (HierarchicalGaussianMixture.fit/predict on the particles, ModeStatistics.from_particles), i.e. the
+    assignment of a walker is a function of its position, as in Resampler.run."""
+    from tempest.cluster import HierarchicalGaussianMixture
+    from tempest.modes import ModeStatistics
+    rng = np.random.default_rng(seed)
+    d = cell["d"]
+    u, logl_fn, _ = exact_samples(rng, cell["tgt"], W, d, cell["beta"])
+    np.random.seed(seed % (2 ** 31))
+    sub = u[: min(W, 4000)]
+    cl = HierarchicalGaussianMixture(n_init=1, max_iterations=cell.get("cap", 3) - 1, min_points=4 * d, threshold_modifier=cell.get("thr", 1.0),
+                                     covariance_type="full", normalize=True)
+    cl.fit(sub, np.ones(len(sub)) / len(sub))
+    K = int(cl.n_clusters_)
+    ass = np.asarray(cl.predict(u))
+    try:
+        ms = ModeStatistics.from_particles(sub, np.ones(len(sub)) / len(sub), np.asarray(cl.predict(sub)), n_modes=K)
+    except TypeError:
+        ms = ModeStatistics.from_particles(sub, np.ones(len(sub)) / len(sub), np.asarray(cl.predict(sub)))
+    r = make_runner(cell["kernel"], u, logl_fn, ass, cell["beta"], ms, None, None, cell["sigma"])
+    out = r.run()
+    f0, f1 = test_functions(u), test_functions(out[0])
+    zs = {k: rule_p(f1[k] - f0[k]) for k in f0}
+    return zs, float(np.mean(np.any(out[0] != u, axis=1))), K
+
+
+def pipeline_task(cell, W, seed):
+    zs, moved, K = pipeline_cell(cell, W, seed)
+    worst = max(zs, key=lambda k: abs(zs[k]))
+    res = dict(zs=zs, worst=worst, z=zs[worst], moved=moved, confirm=None, K=K)
+    if abs(zs[worst]) > Z_P:
+        zs2, _, _ = pipeline_cell(cell, W, seed + 7919)
+        res["confirm"] = zs2[worst]
+    return res
+
+
 def invariance_task(cell, W, seed, through_parallel=False):
     zs, moved = invariance_cell(cell, W, seed, through_parallel)
     worst = max(zs, key=lambda k: abs(zs[k]))
@@ -381,6 +418,30 @@ def run():
             else:
                 ck.note(f"fluctuation: {cell_key(c)} {val['worst']} z={val['z']:.2f} then {val['confirm']:.2f}")
     ck.tables["invariance"] = table
+    # ---- M3c: position-dependent cluster assignment produced by the library's own clusterer
+    pcells = [dict(kernel=k, tgt=t, d=2, beta=1.0, nu=1e6, sigma=(0.5 if k == "tpcn" else 1.2), cap=c)
+              for k in ("tpcn", "rwm") for t in (("exp", "tgauss") if ck.quick else ("exp", "tgauss", "interior", "vm")) for c in ((3,) if ck.quick else (2, 3, 4))]
+    ptasks = [("tvf.checks.c03:pipeline_task", dict(cell=c, W=W, seed=ck.subseed("pipe", i)), None) for i, c in enumerate(pcells)]
+    ptable = []
+    for i, st, val in farm.run(ptasks, timeout=1800, progress="C03-pipeline"):
+        c = ptasks[i][1]["cell"]
+        if st == "timeout":
+            ck.inconc(f"pipeline cell {c}: watchdog")
+            continue
+        if st != "ok":
+            ck.violation("kernel-crashed", f"pipeline cell {c}: {st} {str(val)[-400:]}", dict(cell=c))
+            continue
+        ck.case(dict(pipeline_cell=c, K=val["K"]), nontrivial=val["K"] > 1)
+        ck.event("pipeline cells (assignments from the library's clusterer on exact pi_beta draws)")
+        if val["K"] > 1:
+            ck.event("pipeline cells in which the clusterer split the sample (K > 1)")
+        ptable.append(dict(cell=c, K=val["K"], worst=val["worst"], z=round(val["z"], 2), confirm=None if val["confirm"] is None else round(val["confirm"], 2)))
+        if val["confirm"] is not None and abs(val["confirm"]) > Z_P and np.sign(val["confirm"]) == np.sign(val["z"]):
+            key = "state-dependent-assignment" if val["K"] > 1 else f"{c['kernel']}+hard"
+            ck.violation(key, f"exact draws of pi_beta (target {c['tgt']}), cluster labels = clusterer.predict(position) with K={val['K']} clusters, mode "
+                         f"statistics from ModeStatistics.from_particles: one sweep of the real {c['kernel']} kernel shifts E[{val['worst']}]: z={val['z']:.1f}, "
+                         f"confirmed z={val['confirm']:.1f}", dict(pipeline_cell=c))
+    ck.tables["pipeline"] = ptable
     ck.require_events("kernel sweeps under injected randomness compared with the specification", "walkers with a decisive accept/reject probe",
                       "proposals driven outside the cube", "invariance cells (exact pi_beta draws -> real kernel sweep)")
     return ck.finish(
